@@ -4,6 +4,7 @@ CONSTANTS
   C = 2
   CountFirst = TRUE
   EarlyAccept = FALSE
+  DialAnyOrder = TRUE
 INVARIANT Safety
 PROPERTY Terminates
 CHECK_DEADLOCK FALSE
